@@ -113,7 +113,7 @@ func TestReplay(t *testing.T) {
 }
 
 var recDoc = ev.New("C17", "c17.document",
-	"exhaustive: every document of <=N chars over {a,LF}, their CR LF variants and documents with a stray CR x every ordered range with coordinates up to 2 beyond the document x 7 replacement texts (two with CR); "+
+	"exhaustive: every document of <=N chars over {a,LF}, their CR LF variants, documents with a stray CR and documents with a byte order mark, NUL, FF, NEL or a Unicode line separator at the start, inside or at the end x every ordered range with coordinates up to 2 beyond the document x 7 replacement texts (two with CR); "+
 		"random: multi-byte documents (columns at rune boundaries) and edit sequences of up to 40 open/replace/incremental edits incl. out-of-range positions. "+
 		"Non-trivial = an incremental (ranged) edit applied to a document with >=2 lines; distinct by (document, range, text)")
 
@@ -141,6 +141,11 @@ func TestPropExhaustive(t *testing.T) {
 		}
 	}
 	docs = append(docs, "a\rb", "a\r", "\r\n\r\n", "ab\r\ncd\r\n")
+	// characters an implementation might treat as "not part of the text": a byte order mark, NUL,
+	// form feed, NEL and the Unicode line separators, at the start, inside and at the end
+	for _, sp := range []string{"\uFEFF", "\x00", "\f", "\u0085", "\u2028", "\u2029"} {
+		docs = append(docs, sp, sp+"a", sp+"a\nb", "a\n"+sp+"b", "ab"+sp, "a"+sp+"\n", sp+"\n"+sp)
+	}
 	n := 0
 	for _, doc := range docs {
 		lines := strings.Split(doc, "\n")
@@ -190,7 +195,7 @@ func knownClass(c Case, err error) string { return "" }
 
 // ---- random sequences ----
 
-var alphabet = []string{"a", "b", "é", "世", "😀", "\n", "\n", " ", "\t", "{", "}"}
+var alphabet = []string{"a", "b", "é", "世", "😀", "\n", "\n", " ", "\t", "{", "}", "\uFEFF", "\u2028", "\x00"}
 
 func genText(max int) *rapid.Generator[string] {
 	return rapid.Custom(func(t *rapid.T) string {
